@@ -80,9 +80,11 @@ Transient == {"timeout"}
 NoRun == [f |-> 0, t |-> 0, nr |-> 0]
 Run(f, k) == IF k = 0 THEN NoRun ELSE [f |-> f, t |-> f + k, nr |-> 1]
 Avail == rcv - rd
-NoRes == [k |-> "none", n |-> 0, cnt |-> 0, run |-> NoRun, cls |-> "ok", len |-> 0, rcv |-> 0]
+NoRes == [k |-> "none", n |-> 0, cnt |-> 0, run |-> NoRun, cls |-> "ok", len |-> 0, rcv |-> 0, ab |-> 0]
+\* ab: bytes of the caller's own buffers (the arrays behind the WriteBinary / Write arguments, including their spare
+\* capacity) that no longer hold what the caller put there: always 0 -- the writer only reads what it is given.
 \* rcv: bytes received when the operation returned (the source may deliver more afterwards only through a later op)
-Res(kind, n, k, run, cls, ln) == [k |-> kind, n |-> n, cnt |-> k, run |-> run, cls |-> cls, len |-> ln, rcv |-> rcv]
+Res(kind, n, k, run, cls, ln) == [k |-> kind, n |-> n, cnt |-> k, run |-> run, cls |-> cls, len |-> ln, rcv |-> rcv, ab |-> 0]
 
 InitWith(e) == /\ eofAt = e /\ rcv = 0 /\ rd = 0 /\ perr = "none" /\ term = FALSE
                /\ peeks = << >> /\ rel = 0 /\ copies = << >> /\ wr = 0 /\ flushed = 0 /\ wip = 0
@@ -256,6 +258,8 @@ CopiesValid == \A i \in DOMAIN copies : copies[i].nr = 1 /\ copies[i].t <= rcv
 FlushComplete == (res.k \in {"Flush", "Write"} /\ wip = 0) => flushed = wr
 \* a short Peek/ReadBinary/ReadByte happens only at a source error
 ShortOnlyAtError == (res.k \in {"Peek", "ReadBinary", "ReadByte"} /\ res.cnt < res.n) => res.cls # "ok"
+\* buffers handed to WriteBinary / Write, and the memory around them, are never modified by the writer
+CallerIntact == res.ab = 0
 \* the peer never receives anything that was not written, and never out of order (flushed is a prefix length)
 SinkPrefix == flushed <= wr
 =============================================================================
